@@ -85,7 +85,7 @@ fn main() {
 
   // call shapes: string queries, JSON query nodes, cursors (valid / garbage), aggs (valid / invalid / cut)
   let mut calls: Vec<Call> = Vec::new();
-  let ncalls = if thorough { 24 } else { 8 };
+  let ncalls = if thorough { 10 } else { 8 };
   for _ in 0..ncalls {
     let q = match rng.below(4) {
       0 => rng.pick(&words).to_string(),
